@@ -10,6 +10,10 @@ CONSTANTS
   MaxQ = 2
   MaxId = 3
   KaVals = {0}
+  XQs = {}
+  XfrIds = {}
+  XfrAll = FALSE
+  QVars = {101, 201, 301, 401}
   EndKinds = {"eof", "short", "trunc", "wfail", "stall"}
   MaxOps = 14
   Frames <- GFrames
